@@ -48,6 +48,12 @@ CLAIMED["C03"] = (
     "Trusted: lowering + typed runtime (validated against the compiled modules per run), z3, numpy in the E-class parts. Outside: alphabets beyond the menu, sequences longer than the bound, codon tables other than the default and 2 derived ones. Known finding: KmerAlphabet.fuse accepts code == |A|.",
     "DESIGN.md §4 C03")
 
+CLAIMED["C05"] = (
+    "KX: RunLength / IntegerPacking / Delta encoders and decoders of encoding.pyx lowered from source and executed over fully symbolic fixed-width elements (bit-vectors, every fused instantiation); compression driver, chains, masks, strings and files by solver-driven case split on boundary menus through the real build",
+    "Bounded model checking. For every fused integer instantiation (int8..uint32) and arrays of <= 3 (4) fully symbolic elements z3 shows decode(encode(x)) == x for run-length and delta encoding and, for |v| <= 3 (5) x max + 2, for integer packing into 1 and 2 bytes (or the encoder raised), with no out-of-bounds access. E-class: compress()/serialise/deserialise/read/write on all pairs (triples) of a 23-value integer boundary menu, a 15-value float menu x 3 tolerances x float32/64 x 3 container levels, non-finite/overflowing floats, strings with masks, 6 explicit chains.",
+    "Trusted: lowering + typed runtime + symnp shim (validated against the compiled module per run), z3, numpy/msgpack in the E-class part. Outside: floating-point fixed-point/interval-quantisation arithmetic on symbolic floats (menu values only), arrays longer than the bound, StringArrayEncoding internals symbolically. Known finding: FixedPointEncoding.encode wraps silently.",
+    "DESIGN.md §4 C05")
+
 NOT_APPLICABLE = {
     "C15": "float results of numpy/LAPACK (linalg solves, trigonometry, argmin over float images): no integer/string logic in front of the C boundary that a solver could reason about; an abstraction over the reals would verify a model of numpy, not the code (DESIGN §6)",
     "C16": "optimality/properness come from np.linalg.svd/det (LAPACK behind FFI) on float32 data; no encodable source; z3 terms cannot pass astype(float32) (DESIGN §6)",
